@@ -216,14 +216,14 @@ fn frame_range(
                 FrameBound::UnboundedPreceding => ps,
                 FrameBound::Preceding(k) => i.saturating_sub(*k as usize).max(ps),
                 FrameBound::CurrentRow => i,
-                FrameBound::Following(k) => (i + *k as usize).min(pe),
+                FrameBound::Following(k) => i.saturating_add(*k as usize).min(pe),
                 FrameBound::UnboundedFollowing => unreachable!("rejected at bind"),
             };
             let end = match &f.end {
                 FrameBound::UnboundedPreceding => unreachable!("rejected at bind"),
                 FrameBound::Preceding(k) => (i + 1).saturating_sub(*k as usize).max(ps),
                 FrameBound::CurrentRow => i + 1,
-                FrameBound::Following(k) => (i + 1 + *k as usize).min(pe),
+                FrameBound::Following(k) => (i + 1).saturating_add(*k as usize).min(pe),
                 FrameBound::UnboundedFollowing => pe,
             };
             (start, end)
